@@ -1258,13 +1258,19 @@ func (f *Flow) absorb(call *ssa.Call, cur State, record bool) State {
 	}
 	f.exits[call] = ex
 	if record {
+		// recorded per call site: the disjuncts of one call are not merged with
+		// those of another call of the same helper (rules that need "on every
+		// way of reaching this instruction" read them one by one)
 		for in, st := range g.before {
-			if old, had := f.before[in]; had {
-				for _, d := range st {
-					old.add(d.clone())
-				}
-			} else {
-				f.before[in] = st
+			old, had := f.before[in]
+			if !had {
+				old = State{}
+				f.before[in] = old
+			}
+			for _, d := range st {
+				c := d.clone()
+				c.val[call] = 3
+				old.add(c)
 			}
 		}
 		for c, e := range g.exits {
